@@ -55,6 +55,96 @@ fn densified_fraction<S: Dens>(m: usize, base: u64, setsize: u64, nsets: u64) ->
     empty as f64 / (nsets * m as u64) as f64
 }
 
+/// Pre-hashed data (no-op hasher) whose 64-bit hashes are related by a simple bit transformation g: A = {h_i}, B = {g(h_i)},
+/// plus common items.  A view that is not injective on such related values (a fold of the halves, a truncation) makes the
+/// two sets collide where they share nothing.  T labellings per (g, shape, m, sketcher); the mean fraction of equal
+/// positions must be J in every view (J = 0: at most 1e-3, leaving room for an accidental 32-bit collision).
+fn structured_labellings(ctx: &Ctx, base: u64, t: u64) -> (u64, Vec<Value>) {
+    let gs: Vec<(&str, fn(u64) -> u64)> = vec![
+        ("swap halves", |x| x.rotate_left(32)),
+        ("rotate 16", |x| x.rotate_left(16)),
+        ("swap bytes", |x| x.swap_bytes()),
+        ("reverse bits", |x| x.reverse_bits()),
+        ("flip top bit", |x| x ^ (1 << 63)),
+        ("add 2^32", |x| x.wrapping_add(1 << 32)),
+        ("complement", |x| !x),
+        ("shift into the high half", |x| x << 32),
+    ];
+    let mut details = Vec::new();
+    let mut evals = 0u64;
+    for var in variants().iter().filter(|v| v.name.contains("NoHash")) {
+        let f = var.f;
+        for (gname, g) in &gs {
+            for &(ca, cab) in &[(1usize, 0usize), (3, 0), (2, 1)] {
+                for &m in &[1usize, 16, 512] {
+                    let res: Vec<Result<[f64; 3], String>> = (0..t)
+                        .into_par_iter()
+                        .map(|tt| {
+                            // hashes: packed pairs of small integers (u << 32 | v), u != v, both non-zero
+                            let mut hs = Vec::new();
+                            let mut k = 0u64;
+                            while hs.len() < 2 * ca + cab {
+                                let r = splitmix64(base ^ (tt << 20) ^ k);
+                                k += 1;
+                                let (u, v) = (1 + (r & 0xffff), 1 + ((r >> 16) & 0xffff));
+                                let h = if *gname == "shift into the high half" { u } else { (u << 32) | v };
+                                if u != v && !hs.contains(&h) && !hs.contains(&g(h)) && g(h) != h {
+                                    hs.push(h);
+                                }
+                            }
+                            let common: Vec<u64> = hs[2 * ca..].to_vec();
+                            let a: Vec<u64> = hs[..ca].iter().cloned().chain(common.iter().cloned()).collect();
+                            let b: Vec<u64> = hs[..ca].iter().map(|h| g(*h)).chain(common.iter().cloned()).collect();
+                            // the no-op hasher reads a u64 item big-endian
+                            let ia: Vec<u64> = a.iter().map(|h| h.swap_bytes()).collect();
+                            let ib: Vec<u64> = b.iter().map(|h| h.swap_bytes()).collect();
+                            let va = f(m, &ia)?;
+                            let vb = f(m, &ib)?;
+                            let mut out = [0f64; 3];
+                            for view in 0..3 {
+                                out[view] = va[view].iter().zip(vb[view].iter()).filter(|(x, y)| x == y).count() as f64 / m as f64;
+                            }
+                            Ok(out)
+                        })
+                        .collect();
+                    evals += 2 * t;
+                    let j = cab as f64 / (2 * ca + cab) as f64;
+                    for view in 0..3 {
+                        let mut v = Vec::new();
+                        let mut err = None;
+                        for r in &res {
+                            match r {
+                                Ok(o) => v.push(o[view]),
+                                Err(e) => err = Some(e.clone()),
+                            }
+                        }
+                        if let Some(e) = err {
+                            ctx.violation(&format!("C08-sketch-failure:{}", var.name), &e, json!({"kind": "structured"}));
+                            break;
+                        }
+                        let (mean, se) = crate::common::mean_se(&v);
+                        let se_floor = (j * (1. - j) / (m as f64 * t as f64)).sqrt();
+                        let bad = if j == 0. { mean > 1e-3 } else { ((mean - j) / se.max(se_floor).max(1e-12)).abs() > 6. };
+                        if bad {
+                            ctx.violation(
+                                &format!("C08-structured:{}:view{}", var.name, view),
+                                &format!(
+                                    "{} m={}: sets of pre-hashed items A = {{h_i}} + common, B = {{g(h_i)}} + common with g = '{}' ({} own items each, {} common, J = {:.4}): mean fraction of equal positions in the {} view over {} labellings is {:.5}",
+                                    var.name, m, gname, ca, cab, j, ["float", "u64", "u32"][view], t, mean
+                                ),
+                                json!({"kind": "structured", "variant": var.name, "g": gname, "m": m}),
+                            );
+                            return (evals, details);
+                        }
+                    }
+                    details.push(json!({"variant": var.name, "g": gname, "own": ca, "common": cab, "m": m, "labellings": t}));
+                }
+            }
+        }
+    }
+    (evals, details)
+}
+
 pub fn run(ctx: &Ctx) -> i32 {
     crate::common::install_hang_watchdog(ctx, "model_checking", 30);
     let base = splitmix64(ctx.seed ^ 0xC08) >> 20;
@@ -141,6 +231,9 @@ pub fn run(ctx: &Ctx) -> i32 {
             }
         }
     }
+    let (sevals, sdetails) = structured_labellings(ctx, base, ctx.pick(300, 3000));
+    evals += sevals;
+    println!("C08 structured labellings: {} configurations", sdetails.len());
     let maxz = pdetails.iter().map(|d| d["z"].as_f64().unwrap_or(0.).abs()).fold(0., f64::max);
     println!("C08 partition: {} configurations, max |z| = {:.2}", pdetails.len(), maxz);
     let coverage = json!({
@@ -161,6 +254,7 @@ pub fn run(ctx: &Ctx) -> i32 {
         "identity_comparisons": totals.2,
         "densified_fraction": fill,
         "partition": pdetails,
+        "structured_labellings": {"configurations": sdetails.len(), "what": "no-op hasher, items whose 64-bit hashes are packed pairs (u<<32|v) and their images under 8 bit transformations (swap halves, rotate 16, swap bytes, reverse bits, flip top bit, add 2^32, complement, shift into the high half) as the two sets' own items, 3 shapes, m in {1,16,512}, both sketchers, 3 views: mean fraction of equal positions = J (J=0: <= 1e-3)"},
     });
     ctx.finish(
         "model_checking",
